@@ -4,7 +4,10 @@ import (
 	"fmt"
 	"sort"
 
+	"strings"
+
 	"github.com/cockroachdb/errors"
+	"github.com/cockroachdb/errors/errbase"
 	"github.com/cockroachdb/errors/extgrpc"
 	"github.com/cockroachdb/errors/exthttp"
 	"github.com/cockroachdb/errors/oserror"
@@ -39,6 +42,14 @@ func accSX(e error) SX {
 		sd = append(sd, L(Str(p.OriginalTypeName), L(Str(p.ErrorTypeMark.FamilyName), Str(p.ErrorTypeMark.Extension)), Strs(det)))
 	}
 	root := errors.UnwrapAll(e)
+	var stacks []SX
+	for c := e; c != nil; c = errors.UnwrapOnce(c) {
+		if ps, ok := printedStackOf(c); ok {
+			stacks = append(stacks, L(Sym("some"), Str(ps)))
+		} else {
+			stacks = append(stacks, L(Sym("none")))
+		}
+	}
 	return L(Sym("acc"),
 		L(Sym("hints"), Strs(errors.GetAllHints(e))),
 		L(Sym("details"), Strs(errors.GetAllDetails(e))),
@@ -54,8 +65,33 @@ func accSX(e error) SX {
 		L(Sym("grpc"), Nat(int(extgrpc.GetGrpcCode(e)))),
 		L(Sym("os"), Bool(oserror.IsPermission(e)), Bool(oserror.IsExist(e)), Bool(oserror.IsNotExist(e)), Bool(oserror.IsTimeout(e))),
 		L(Sym("root"), Str(root.Error()), Str(fmt.Sprintf("%T", root))),
+		L(Sym("stacks"), L(stacks...)),
 		L(Sym("safedet"), L(sd...)),
 	)
+}
+
+var stackKeys = map[string]bool{
+	"github.com/cockroachdb/errors/withstack/*withstack.withStack": true,
+	"github.com/pkg/errors/*errors.withStack":                      true,
+	"github.com/pkg/errors/*errors.fundamental":                    true,
+}
+
+// printedStackOf returns the printed stack that a reportable layer carries: the %+v of
+// its StackTrace(), or the first safe detail of a layer received under a stack key.
+func printedStackOf(c error) (string, bool) {
+	if sp, ok := c.(errbase.StackTraceProvider); ok {
+		st := sp.StackTrace()
+		if len(st) == 0 {
+			return "", false
+		}
+		return fmt.Sprintf("%+v", st), true
+	}
+	if sd, ok := c.(errbase.SafeDetailer); ok && stackKeys[strings.TrimSuffix(string(errbase.GetTypeKey(c)), unkSuffix)] {
+		if d := sd.SafeDetails(); len(d) > 0 {
+			return d[0], true
+		}
+	}
+	return "", false
 }
 
 func dedupSorted(ss []string) []string {
